@@ -2,6 +2,7 @@
   C10 — Timeouts are exact: never early, never masking other outcomes.
 -/
 import Rsactor.Inv.Time
+import Rsactor.Ties.timeout_wrappers_shape
 
 namespace Rsactor.Props.C10
 open Rsactor Rsactor.Model Rsactor.Monitor Rsactor.Extracted
@@ -56,5 +57,9 @@ example : ∃ s, run? (init 1 {})
      .issue 0 { kind := .tell, timeout := some 25 }, .advance 25, .timeoutFire 1] = some s ∧
     Ev.ret 1 .timeout 35 ∈ s.ev := by
   refine ⟨_, rfl, ?_⟩; decide
+
+
+/-! ### ties to the source: shape lemmas about the tables regenerated from /repo on every run -/
+-- @tie Rsactor.Ties.timeout_wrappers_shape
 
 end Rsactor.Props.C10
